@@ -4,6 +4,7 @@ import SR.Checker.Spec
 import SR.Checker.Sim
 import SR.Checker.Verdict
 import SR.Checker.Assert
+import SR.Checker.SymOk
 import SR.Proofs.Checker.Fuel
 import SR.Proofs.Checker.SimFuel
 /-! Driver commands of the checker group (C01, C02, C03, C11, C12, C13): `chk` runs the machine
@@ -291,6 +292,9 @@ def handle : Drv.Handler
     -- the oracle functions are adequate on well-formed graphs (Props/OracleAdequacy: reachList = Reach without any fixpoint
     -- hypothesis, distOf = shortest-path length, canAvoidForever = a maximal avoiding path or lasso exists, isForest)
     if !decide g.WF then pure "ill-formed-graph" else
+    -- the theorems behind the guarded lines (C10_complete_run_sym) assume that `rep` induces a simulation with invariant
+    -- conditions; `symOk` decides exactly that (C10_oracle_symOk_iff).  A refusal means the HARNESS left the hypotheses.
+    if !symOk g rep (ps.map (·.tbl)) then pure "rep-not-a-symmetry" else
     if !((g.closeStep g.reachList).all g.reachList.contains) then pure "oracle-closure-not-stabilised" else
     match ← Obs.ofSExp? obs with
     | none => pure "implementation-panicked"
